@@ -476,3 +476,37 @@ func Harness_C15_stuck_party_is_dropped_once() {
 	verifAssert(!verifTimerActive(t.callEstablishmentTimer), "nothing-times-a-finished-call")
 	verifReach("end")
 }
+
+// ---- the callee accepts while the caller's session is stuck (dead connection, queue full): broadcasting the
+// "accepted" replacement drops the caller's session, which ends the call at once. Whatever the order, the topic
+// survives, no call is left behind, and every stored message has its own number.
+func Harness_C15_accept_with_stuck_originator() {
+	w := verifCallSetup()
+	t := w.t
+	verifAssume(w.state == 1 && globals.iceServers != nil)
+	a1 := w.sess[0]
+	for len(a1.send) < cap(a1.send) {
+		a1.send <- &ServerComMessage{Ctrl: &MsgServerCtrl{Code: 200}}
+	}
+	oldRows, oldLast := len(w.fx.store.msgs), t.lastID
+	verifMaxRows = oldRows + 6
+	verifMaxRowsLabel = "call-ends-exactly-once: no runaway finalizing messages"
+	ev := []string{"accept", "ringing"}[verifChoose("event", 2)]
+	msg := &ClientComMessage{
+		Note:   &MsgClientNote{Topic: w.a.UserId(), What: "call", Event: ev, SeqId: w.seq, Payload: []byte(`"sdp"`)},
+		AsUser: w.b.UserId(), AuthLvl: int(auth.LevelAuth), Original: w.a.UserId(), RcptTo: t.name,
+		Timestamp: types.TimeNow(), sess: w.sess[2], init: true}
+	t.handleClientMsg(msg)
+	rows := w.fx.store.msgs[oldRows:]
+	for i, r := range rows {
+		verifAssert(r.SeqId == oldLast+1+i, "numbers-unique-and-gapless")
+	}
+	verifAssert(t.lastID == oldLast+len(rows), "topic-counter-matches-the-stored-rows")
+	if ev == "accept" {
+		_, still := t.sessions[a1]
+		verifAssert(!still, "stuck-session-detached")
+		verifAssert(t.currentCall == nil, "dropping-the-caller-ends-the-call")
+		verifAssert(!verifTimerActive(t.callEstablishmentTimer), "nothing-times-a-finished-call")
+	}
+	verifReach("end")
+}
